@@ -124,7 +124,7 @@ def run(rep):
             ps = pat_str(a["pat"])
             if p.get("k") == "Wild":
                 body = peel(a["body"])
-                isp = call_is(body, "panicking::panic") or "panic" in show(body)
+                isp = facts._panics(body) is not None
                 rep.check(idx == len(cmpm["arms"]) - 1 and isp, "T-CMP", "T-CMP/final-arm", a["sp"], "the final `_` arm is last and unreachable", show(body)[:60])
                 continue
             if p.get("k") != "Leaf" or len(p["sub"]) != 3:
